@@ -652,6 +652,21 @@ func main() {
 		}()
 	}
 	wg.Wait()
+	// A run that exceeded its wall-clock limit while 16 workers shared a busy machine is not yet a
+	// wedged member: it is repeated alone with three times the limit (the plan is deterministic);
+	// only a run that does not finish then either is reported as hung.
+	reruns := 0
+	for i, o := range outcomes {
+		slow := (o.res != nil && o.res.Status == "hung") || strings.Contains(o.err, "watchdog")
+		if !slow || reruns >= 6 {
+			continue
+		}
+		reruns++
+		o2 := runPlan(b, o.plan, fmt.Sprintf("slow-%d", i), false, false, 3*wallMax)
+		if o2.res != nil && o2.res.Status != "hung" && !strings.Contains(o2.err, "watchdog") {
+			outcomes[i] = o2
+		}
+	}
 	runS := time.Since(t0).Seconds() - buildS
 	sort.Slice(outcomes, func(i, j int) bool { return outcomes[i].seed < outcomes[j].seed })
 
@@ -853,6 +868,19 @@ func doReplay(b *built, id, file string, findings []finding, wallMax time.Durati
 		return 1
 	}
 	fmt.Printf("replay of %s: violation %s/%s did not recur (status=%s, %d other violations)\n", file, rf.Violation.Class, rf.Violation.Subject, o.res.Status, len(o.res.Violations))
+	shown := map[string]bool{}
+	for _, v := range o.res.Violations {
+		k := v.Class + "/" + v.Subject
+		if shown[k] {
+			continue
+		}
+		shown[k] = true
+		what := "NOT listed in known_findings.txt"
+		if matchFinding(findings, id, v) != nil {
+			what = "listed as a known finding"
+		}
+		fmt.Printf("  other: class=%s subject=%s (%s)\n", v.Class, v.Subject, what)
+	}
 	if rf.Tree == treeID() && rf.Fingerprint != 0 && o.res.Fingerprint != rf.Fingerprint {
 		fmt.Println("REPLAY-DIVERGED: same tree, different schedule fingerprint")
 		return 2
